@@ -4,6 +4,7 @@
 package lease
 
 import (
+	"context"
 	"database/sql"
 	"encoding/binary"
 	"encoding/hex"
@@ -61,16 +62,17 @@ type Conf struct {
 }
 
 type Op struct {
-	Kind  string `json:"kind"`                        // discover | request | restart | age
-	MAC   string `json:"mac,omitempty"`               // hex chaddr (any length 0..16)
-	Host  string `json:"host,omitempty"`              // hex of option 12; "" = absent
-	Lease string `json:"lease,omitempty"`             // restart: lease time argument
-	Shift int    `json:"range_shift,omitempty"`       // restart with the configured range moved by this many addresses
-	CID   string `json:"client_id,omitempty"`         // hex of option 61; "" = absent
-	Dur   string `json:"elapsed,omitempty"`           // age: how much time passes (default 2h1s)
-	XCode int    `json:"extra_option,omitempty"`      // one more option (code) ...
-	XData string `json:"extra_option_data,omitempty"` // ... with this payload (hex)
-	RO    bool   `json:"read_only_db,omitempty"`      // restart with the lease database opened read-only (fault: it cannot be written any more)
+	Kind  string `json:"kind"`                          // discover | request | restart | age
+	MAC   string `json:"mac,omitempty"`                 // hex chaddr (any length 0..16)
+	Host  string `json:"host,omitempty"`                // hex of option 12; "" = absent
+	Lease string `json:"lease,omitempty"`               // restart: lease time argument
+	Shift int    `json:"range_shift,omitempty"`         // restart with the configured range moved by this many addresses
+	CID   string `json:"client_id,omitempty"`           // hex of option 61; "" = absent
+	Dur   string `json:"elapsed,omitempty"`             // age: how much time passes (default 2h1s)
+	Lock  string `json:"database_locked_for,omitempty"` // another connection holds the write lock this long while the request is handled
+	XCode int    `json:"extra_option,omitempty"`        // one more option (code) ...
+	XData string `json:"extra_option_data,omitempty"`   // ... with this payload (hex)
+	RO    bool   `json:"read_only_db,omitempty"`        // restart with the lease database opened read-only (fault: it cannot be written any more)
 }
 
 type Case struct {
@@ -400,6 +402,35 @@ func (s *Sys) Apply(op Op, live bool) (obs string) {
 	} else {
 		resp.UpdateOption(dhcpv4.OptMessageType(dhcpv4.MessageTypeOffer))
 	}
+	unlocked := make(chan struct{})
+	if op.Lock != "" {
+		// environment: a backup job (BEGIN IMMEDIATE; copy; ROLLBACK) holds the write lock of the
+		// lease file for a moment - far shorter than sqlite's busy timeout
+		d, err := time.ParseDuration(op.Lock)
+		if err != nil {
+			panic(err)
+		}
+		other, err := sql.Open("sqlite3", "file:"+s.db)
+		if err != nil {
+			panic(err)
+		}
+		conn, err := other.Conn(context.Background())
+		if err != nil {
+			panic(err)
+		}
+		if _, err := conn.ExecContext(context.Background(), "BEGIN IMMEDIATE"); err != nil {
+			panic(err)
+		}
+		go func() {
+			time.Sleep(d)
+			conn.ExecContext(context.Background(), "ROLLBACK")
+			conn.Close()
+			other.Close()
+			close(unlocked)
+		}()
+	} else {
+		close(unlocked)
+	}
 	tBefore := time.Now()
 	var out *dhcpv4.DHCPv4
 	var stop bool
@@ -416,6 +447,7 @@ func (s *Sys) Apply(op Op, live bool) (obs string) {
 		out, stop = s.h(req, resp)
 		return
 	}()
+	<-unlocked
 	if pan != "" {
 		s.dead = true
 		if live {
@@ -730,7 +762,29 @@ func upgrades(r *ev.Run, id string) {
 	}
 }
 
+// lockedWrites: while a request is handled another connection holds the database's write lock
+// for 300 ms (a backup job); the lease handed out meanwhile must be on disk afterwards.
+func lockedWrites(r *ev.Run, id string) {
+	a, b, c := "020000000a01", "020000000b02", "020000000c03"
+	conf := Conf{Start: "10.0.0.10", End: "10.0.0.13", Lease: "60s", NoShift: true, MACs: []string{a, b, c}}
+	for _, hist := range [][]Op{
+		{{Kind: "discover", MAC: a}, {Kind: "discover", MAC: b, Lock: "300ms"}, {Kind: "restart", Lease: "60s"}, {Kind: "discover", MAC: c}, {Kind: "request", MAC: b}},
+		{{Kind: "discover", MAC: a}, {Kind: "age"}, {Kind: "request", MAC: a, Lock: "300ms"}, {Kind: "restart", Lease: "60s"}, {Kind: "request", MAC: a}},
+	} {
+		s := NewSys(r, id, conf, id == "C03")
+		for _, op := range hist {
+			if s.Terminal() {
+				break
+			}
+			s.Apply(op, true)
+		}
+		s.Close()
+		r.Add("locked_write_histories", 1)
+	}
+}
+
 func sweeps(r *ev.Run, id string) {
+	lockedWrites(r, id)
 	upgrades(r, id)
 	gaps(r, id)
 	irrelevantOptions(r, id)
